@@ -54,7 +54,7 @@ func init() {
 		Phases:      phases,
 		Run:         run,
 		Floors: func(t string) map[string]int64 {
-			return map[string]int64{"runs.free": 1000, "runs.perturbed": 300, "runs.forced": 200, "window.forced_observed": 100, "window.handshake_runs": 100, "doc.tiny": 8, "doc.negative_ids": 8, "doc.ids_beyond_2^40": 8, "keep.tags": 100, "keep.bounds": 100, "keep.all": 100,
+			return map[string]int64{"runs.free": 1000, "runs.perturbed": 300, "runs.forced": 200, "window.forced_observed": 100, "window.handshake_runs": 100, "doc.tiny": 8, "doc.negative_ids": 8, "doc.ids_beyond_2^40": 8, "keep.tags": 100, "keep.tags.empty_string_among_wanted_values": 15, "keep.bounds": 100, "keep.all": 100,
 				"order.shuffled": 8, "order.ways_first": 3, "order.reverse_cascade": 3, "doc.cascade": 20, "doc.relation_cycle": 5, "doc.dangling": 1, "filter.checked": 100, "gomaxprocs.16": 50, "format.pbf": 300, "format.xml": 1000}
 		},
 	})
@@ -133,7 +133,7 @@ func (d *doc) xml() []byte {
 func randTags(r *gen.R, p float64) []tag {
 	var ts []tag
 	if r.Chance(p) {
-		ts = append(ts, tag{"k", []string{"v", "v", "other"}[r.Intn(3)]})
+		ts = append(ts, tag{"k", []string{"v", "v", "other", "v", "v", "other", ""}[r.Intn(7)]})
 	}
 	if r.Chance(0.3) {
 		ts = append(ts, tag{"name", "x"})
@@ -759,8 +759,17 @@ func run(c *core.Ctx, idx int) {
 	d := genDoc(c, r)
 	xmlBytes := d.xml()
 	keeps := []keepSpec{{"tags", []string{"v"}}, {"bounds", nil}, {"all", nil}}
-	if r.Bool() {
+	switch r.Intn(8) {
+	case 0, 1, 2:
 		keeps[0].vals = nil // key only
+	case 3:
+		keeps[0].vals = []string{""} // the empty value, exactly
+		c.Count("keep.tags.empty_string_among_wanted_values")
+	case 4:
+		keeps[0].vals = []string{"", "v"}
+		c.Count("keep.tags.empty_string_among_wanted_values")
+	case 5:
+		keeps[0].vals = []string{"other", "v", "v"}
 	}
 	race := c.Phase == "race"
 	for _, k := range keeps {
@@ -891,7 +900,7 @@ func run(c *core.Ctx, idx int) {
 }
 
 func filterLaws(c *core.Ctx, d *doc, data *gosm.Data, in *sets, detail map[string]interface{}) {
-	for _, fk := range []keepSpec{{"tags", []string{"v"}}, {"tags", nil}, {"all", nil}} {
+	for _, fk := range []keepSpec{{"tags", []string{"v"}}, {"tags", nil}, {"tags", []string{""}}, {"all", nil}} {
 		c.Eval()
 		c.Count("filter.checked")
 		want, dangling := model(d, fk, in)
